@@ -169,13 +169,19 @@ def c12(tier, seed):
     t0 = time.time(); prop = "C12"
     variants = ["rel", "dbg"] + (["sec"] if tier == "thorough" else [])
     cases = seq_cases(prop, "walk", variants, tier_n(tier, 32, 600), tier_n(tier, 4000, 10000), seed)
+    # blocks left behind by terminated threads: heap walks + mi_abandoned_visit_blocks together must report exactly the live blocks
+    cases += seq_cases(prop, "walk", ["rel", "dbg"], tier_n(tier, 8, 150), tier_n(tier, 3000, 8000), seed, extra_args=["--threads", 1, "--abandon-ok", 1], env={"MIMALLOC_VISIT_ABANDONED": "1"},
+                       label_prefix="abandoned-", start_index=60000)
+    cases += seq_cases(prop, "walk", ["rel"], tier_n(tier, 4, 60), tier_n(tier, 3000, 8000), seed, extra_args=["--threads", 1, "--abandon-ok", 1],
+                       env={"MIMALLOC_VISIT_ABANDONED": "1", "MIMALLOC_DISALLOW_ARENA_ALLOC": "1"}, label_prefix="abandoned-os-", start_index=61000)
     v = Verdict(prop)
     for c in core.run_cases(cases): v.add(c)
     cov = seq_cov(cases)
     return finish(prop, tier, seed, "exploration", v, cases, t0,
-                  "a case = one history leaving pages empty / striped / full / single-block huge, with a full heap-walk comparison against the shadow model every 64 operations "
+                  "a case = one history leaving pages empty / striped / full / single-block huge, plus every 160 operations a structured hole pattern inside the pages of one size class (every k-th freed, only every k-th live, "
+                  "1-3 holes, a single live block, one half, one contiguous hole, whole 64-block groups live, empty groups with the last slot live), with a full heap-walk comparison against the shadow model every 64 operations "
                   "(every live block once, enclosing range, no dead block, area.used, early stop); non-trivial = >=40 walks visiting >=5000 blocks; distinct = (variant, op-list hash)",
-                  lambda r, c: r.get("walks", 0) >= 40 and r.get("walk_blocks", 0) >= 5000, cov, SEQ_ASSUME)
+                  lambda r, c: r.get("walks", 0) >= 40 and r.get("walk_blocks", 0) >= 5000 and r.get("walk_patterns", 0) >= 5, cov, SEQ_ASSUME)
 
 @check("C06")
 def c06(tier, seed):
